@@ -102,9 +102,9 @@ TABLE = [
     #             from which that helper is reached contains <s>
     #   role:<r>  the site sits in a function with that structural role
     ("via:_variance", "panic", 2, "internal range asserts of the helper behind the two variance accessors: called only with [0,|B|) and [|B|,|B|+|P|) on the diagonal of the (|B|+|P|)-square covariance (R-VAR-SLICES)"),
-    ("via:_variance", "index-call", 1, "idx + start < end ≤ nrows by the two preceding assertions"),
+    ("via:_variance", "index-call", 1, "idx + start < end ≤ nrows by the two preceding assertions", "needs-2-asserts"),
     ("via:correlation_matrix", "assert_failed", 1, "squareness assert: the covariance is an inverse of HᵀH, square by construction"),
-    ("via:correlation_matrix", "index-call", 5, "indices are loop variables of 0..nrows/0..ncols of a matrix allocated with the covariance's shape (R-CORRELATION)"),
+    ("via:correlation_matrix", "index-call", 5, "indices are loop variables of 0..nrows/0..ncols of a matrix allocated with the covariance's shape (R-CORRELATION)", "needs-1-asserts"),
     ("via:FitStatistics<Model>>::try_calculate", "assert_failed", 1, "row-count assert of the column concatenation: both blocks have |S| rows for a model honouring the shape contract (allocation checked by R-MODEL-JAC)"),
     ("role:boxed-callable", "bounds-check", 1, "params[mapping[f]] in the closure boxed as the model's basis function: mapping holds positions in the model parameter list and SeparableModel::eval guards len(params) == |names| (R-MODEL-GUARDS)"),
 ]
@@ -206,7 +206,8 @@ def rule_panic_sites(F, ev, R, config, rule="R-PANIC-SITES"):
                 continue
             # tabled?
             hit = None
-            for sub, tk, mx, reason in TABLE:
+            for ent in TABLE:
+                sub, tk, mx, reason = ent[:4]
                 if tk != kind or sub.startswith("via:") or sub.startswith("role:"):
                     continue
                 if sub in k:
@@ -215,9 +216,17 @@ def rule_panic_sites(F, ev, R, config, rule="R-PANIC-SITES"):
             if hit is None:
                 rb_ = F.bodies.get(F.bodies[k].j.get("root", k), F.bodies[k])
                 anc = None
-                for sub, tk, mx, reason in TABLE:
+                for ent in TABLE:
+                    sub, tk, mx, reason = ent[:4]
                     if tk != kind:
                         continue
+                    if len(ent) > 4 and ent[4].startswith("needs-"):
+                        # the justification of this entry rests on assertions in the same function: they must be there
+                        need = int(ent[4].split("-")[1])
+                        have_ = sum(1 for bb_ in F.bodies[k].blocks if bb_["term"]["k"] == "call" and "fn" in bb_["term"] and
+                                    bb_["term"]["fn"]["path"].startswith("core::panicking") and bb_["term"].get("t") is None)
+                        if have_ < need:
+                            continue
                     if sub.startswith("role:") and sub[5:] in roles_of(F, k):
                         hit = (sub, tk, mx, reason)
                         break
@@ -233,7 +242,8 @@ def rule_panic_sites(F, ev, R, config, rule="R-PANIC-SITES"):
                 from rules_problem2 import local_callers
                 callers = set(c for c in local_callers(F).get(k, ()) if c in cn and c != k)
                 if callers and F.bodies[k].j.get("vis") != "pub":
-                    for sub, tk, mx, reason in TABLE:
+                    for ent in TABLE:
+                        sub, tk, mx, reason = ent[:4]
                         if tk == kind and all(sub in c for c in callers):
                             hit = (sub, tk, mx, reason + " [site moved into the helper `%s`, called only from such functions]" % k.rsplit("::", 1)[-1])
                             break
